@@ -261,6 +261,51 @@ func C10(c *Ctx) {
 	}
 	r.Floor("R10.2", "selection sites behind the changed-value predicate", nPred, 3)
 
+	// R10.4 balances are immutable values
+	r.Rule("R10.4", "no in-place arithmetic on stored balances: the destination operand of a big.Int operation (z in z.Add/Sub/Mul/Div/Set..(x, y)) in ledger, executor, contracts and VM code is never a value obtained from a balance getter (GetBalance / the origin or dirty account's Balance field); mutating it changes the origin record behind the change detection, so the new balance is neither journaled nor hashed into the state root.")
+	nBig := 0
+	for _, fn := range c.P.ModuleFuncs(true) {
+		pk := core.PkgOf(fn)
+		if !(pk == ledgerPkg || strings.HasPrefix(pk, "internal/executor") || strings.HasPrefix(pk, "pkg/vm")) {
+			continue
+		}
+		for _, call := range core.Calls(fn) {
+			n := core.CalleeName(call)
+			if !strings.HasPrefix(n, "(*math/big.Int).") {
+				continue
+			}
+			op := strings.TrimPrefix(n, "(*math/big.Int).")
+			switch op {
+			case "Add", "Sub", "Mul", "Div", "Mod", "Set", "SetUint64", "SetInt64", "SetString", "Neg", "Quo", "Rem", "Exp", "Lsh", "Rsh":
+			default:
+				continue
+			}
+			nBig++
+			z := call.Common().Args[0]
+			shared := ""
+			for _, o := range append(core.Origins(z), z) {
+				o = core.Strip(o)
+				if cc, ok := o.(*ssa.Call); ok {
+					if ob := core.CalleeObj(cc); ob != nil && (ob.Name() == "GetBalance" || ob.Name() == "GetEVMBalance") {
+						shared = "the result of " + ob.Name() + "()"
+					}
+				}
+				if _, f, base, ok := core.FieldOf(o); ok && f == "Balance" {
+					if _, f2, _, ok2 := core.FieldOf(base); ok2 && (f2 == "originAccount" || f2 == "dirtyAccount") {
+						shared = "the account record's Balance field"
+					}
+				}
+			}
+			if shared != "" {
+				r.Bad("R10.4", shortFn(fn)+": big.Int."+op+" in place", c.P.Pos(call.Pos()), "arithmetic writes its result into "+shared+": the stored (origin) balance object is modified behind the change detection, so the account is not journaled and the state root does not cover the new balance")
+			}
+		}
+	}
+	r.Floor("R10.4", "big.Int operations inspected", nBig, 10)
+	if nBig > 0 {
+		r.OK("R10.4", "big.Int destinations are fresh values", "", fmt.Sprintf("%d operations inspected", nBig))
+	}
+
 	// R10.3
 	if fn := c.P.Fn("internal/ledger.(*SimpleAccount).getStateJournalAndComputeHash"); fn != nil {
 		for _, call := range core.Calls(fn) {
